@@ -224,6 +224,10 @@ OnPoll(s, e) ==
   IN
   [ st |-> SetRun(s, r, LogIf(s, R, e)),
     v  |-> If(C04_NoDeadlock(idle, FALSE, InFlight(o)), "C04", "pending, not woken, nothing in flight")
+        \* C08 "... and the call returns": the same dead end after an effective interrupt
+        \o (IF EffectiveInterruptPossible(o)
+            THEN If(C08_Returns(idle, FALSE, InFlight(o)), "C08", "interrupted call neither returns nor is woken")
+            ELSE <<>>)
         \o (IF idle /\ C06_Applies(o)
             THEN If(C06_Eager(s.n, EdgesInto(s, o.order, (1..s.n) \ Range(R.started)), o.order, Range(R.started), R.ended),
                     "C06", "idle with a startable function")
